@@ -579,6 +579,18 @@ impl Harness for Polys {
                 check_poly!(I, "a*k", &a * k, ra.iter().map(|(e, c)| (*e, c * k)).collect::<BTreeMap<_, _>>(), mono, keyof);
                 check_poly!(I, "(a*b)-(b*a)", &(&a * &b) - &(&b * &a), BTreeMap::<isize, I>::new(), mono, keyof);
                 let nz: Vec<(&isize, &I)> = ra.iter().filter(|(_, c)| !c.is_zero()).collect();
+                // leading term = largest exponent (also when every exponent is negative)
+                if let Some((e, c)) = nz.last() {
+                    I::oblige("lead_deg (Laurent)", VF::of_bool(a.lead_deg() == **e));
+                    I::oblige("lead_coeff (Laurent)", VF::zero(a.lead_coeff() - *c));
+                } else {
+                    I::oblige("lead_coeff of 0 is 0", VF::zero(a.lead_coeff().clone()));
+                }
+                let rp: BTreeMap<isize, I> = prod.iter().filter(|(_, c)| !c.is_zero()).map(|(k, c)| (*k, c.clone())).collect();
+                if let (Some((ea, _)), Some((eb, _)), Some((ep, _))) = (nz.last(), rb.iter().filter(|(_, c)| !c.is_zero()).last(), rp.iter().next_back()) {
+                    // Z is a domain: the degree is additive
+                    I::oblige("lead_deg additive under multiplication", VF::of_bool((&a * &b).lead_deg() == *ep && *ep == **ea + *eb));
+                }
                 I::oblige("is_unit <=> single term with unit coefficient", VF::of_bool(a.is_unit() == (nz.len() == 1 && nz[0].1.is_unit())));
                 if let Some(i) = a.inv() {
                     I::oblige("a * inv(a) = 1", VF::of_bool((&a * &i).is_one()));
@@ -602,6 +614,14 @@ impl Harness for Polys {
                 check_poly!(I, "a*b", &a * &b, prod, mono, keyof);
                 check_poly!(I, "b*a", b.clone() * a.clone(), prod, mono, keyof);
                 check_poly!(I, "a*k", &a * k, ra.iter().map(|(e, c)| (*e, c * k)).collect::<BTreeMap<_, _>>(), mono, keyof);
+                {
+                    let nz: Vec<(&(isize, isize), &I)> = ra.iter().filter(|(_, c)| !c.is_zero()).collect();
+                    if let Some((e, c)) = nz.iter().max_by_key(|(e, _)| (e.0 + e.1, e.0, e.1)) {
+                        let d = a.lead_deg();
+                        I::oblige("lead_deg (grlex, two variables)", VF::of_bool((d.0 as isize, d.1 as isize) == **e));
+                        I::oblige("lead_coeff (two variables)", VF::zero(a.lead_coeff() - *c));
+                    }
+                }
                 let ev = |m: &BTreeMap<(isize, isize), I>| m.iter().fold(I::zero(), |s, (e, c)| &s + &(&(c * &px.pow(&(e.0 as usize))) * &py.pow(&(e.1 as usize))));
                 I::oblige("eval(a) matches", VF::zero(&a.eval(px, py) - &ev(&ra)));
                 I::oblige("eval multiplicative", VF::zero(&(&a * &b).eval(px, py) - &(&a.eval(px, py) * &b.eval(px, py))));
